@@ -406,9 +406,14 @@ private:
 		static_assert(PrototypeInfo::index >= 0, "Can't find invoker for the given argument types.");
 		static_assert(std::tuple_size<typename PrototypeInfo::ArgsTuple>::value == 1 + sizeof...(Args), "Arguments count mismatch.");
 
+		// The event must be obtained in a statement of its own and from `first` as an lvalue: `first` is also the
+		// first queued argument, the order in which the arguments of a call are evaluated is unspecified, and
+		// std::forward<T>(first) initializing the tuple could move `first` away before getEvent reads it
+		// (or getEvent could move it away before the tuple is built).
+		const EventType_ e = GetEvent::getEvent(first, args...);
 		doEnqueueItem(QueuedItemType(
 			PrototypeInfo::index,
-			GetEvent::getEvent(std::forward<T>(first), args...),
+			e,
 			&HeterEventQueueBase::doDispatchItem<PrototypeInfo>,
 			typename PrototypeInfo::ArgsTuple(std::forward<T>(first), std::forward<Args>(args)...)
 		));
